@@ -8,6 +8,6 @@ CONSTANTS
   ForkEpochs = {10}
   StoreRechecks = TRUE
   CacheOps = {"attestation", "randao"}
-INVARIANTS TypeOK DomainRight Memoryless HandedOwn SigCorrect NoSignatureWithoutDomain ErrorHasNoSignatures
+INVARIANTS TypeOK DomainRight Memoryless HandedOwn SigCorrect NoSignatureWithoutDomain ErrorHasNoSignatures RefusedForCause
 PROPERTIES HitIsRecall
 CHECK_DEADLOCK FALSE
